@@ -188,6 +188,10 @@ class Path:
             for a in ax:
                 s.add(a)
         r = s.check()
+        if r == z3.unknown:
+            # a loaded machine must not change the set of explored paths: one longer retry before giving up
+            s.set('timeout', self.ex.feas_timeout_ms * 8)
+            r = s.check()
         return r != z3.unsat
 
     def branch(self, cond, what='') -> bool:
